@@ -2,6 +2,8 @@ package values
 
 import (
 	"fmt"
+	"math"
+	"math/big"
 	"reflect"
 	"sort"
 )
@@ -48,22 +50,69 @@ func keyLess(a, b reflect.Value) bool {
 	if ca != cb {
 		return ca < cb
 	}
-	switch ca {
+	if valueLess(ca, a, b) {
+		return true
+	}
+	if valueLess(ca, b, a) {
+		return false
+	}
+	// Two keys of one map that are equal by value differ in type: 1, 1.0 and int64(1) are
+	// three keys of a map[any]any. Order them too, or the map's own order shows through.
+	return keyTypeName(a) < keyTypeName(b)
+}
+
+// valueLess orders two keys of the same class by value.
+func valueLess(class int, a, b reflect.Value) bool {
+	switch class {
 	case 1:
 		return !a.Bool() && b.Bool()
 	case 2:
-		if a.CanInt() && b.CanInt() {
-			return a.Int() < b.Int()
-		}
-		if a.CanUint() && b.CanUint() {
-			return a.Uint() < b.Uint()
-		}
-		return keyFloat(a) < keyFloat(b)
+		return numberLess(a, b)
 	case 3:
 		return a.String() < b.String()
 	default:
 		return fmt.Sprint(a) < fmt.Sprint(b)
 	}
+}
+
+// numberLess compares two numbers of any types exactly: a conversion to float64 would
+// make neighbours beyond 2^53 equal, and the order would not be transitive.
+func numberLess(a, b reflect.Value) bool {
+	switch {
+	case a.CanInt() && b.CanInt():
+		return a.Int() < b.Int()
+	case a.CanUint() && b.CanUint():
+		return a.Uint() < b.Uint()
+	case a.CanInt() && b.CanUint():
+		return a.Int() < 0 || uint64(a.Int()) < b.Uint()
+	case a.CanUint() && b.CanInt():
+		return b.Int() >= 0 && a.Uint() < uint64(b.Int())
+	case a.CanFloat() && b.CanFloat():
+		return a.Float() < b.Float()
+	}
+	x, y := keyNumber(a), keyNumber(b)
+	return x != nil && y != nil && x.Cmp(y) < 0
+}
+
+// keyNumber is the exact value of a number, or nil for a NaN.
+func keyNumber(v reflect.Value) *big.Float {
+	switch {
+	case v.CanInt():
+		return new(big.Float).SetInt64(v.Int())
+	case v.CanUint():
+		return new(big.Float).SetUint64(v.Uint())
+	case math.IsNaN(v.Float()):
+		return nil
+	default:
+		return big.NewFloat(v.Float())
+	}
+}
+
+func keyTypeName(v reflect.Value) string {
+	if !v.IsValid() {
+		return ""
+	}
+	return v.Type().String()
 }
 
 func keyClass(v reflect.Value) int {
@@ -78,17 +127,6 @@ func keyClass(v reflect.Value) int {
 		return 3
 	default:
 		return 4
-	}
-}
-
-func keyFloat(v reflect.Value) float64 {
-	switch v.Kind() {
-	case reflect.Float32, reflect.Float64:
-		return v.Float()
-	case reflect.Uint, reflect.Uint8, reflect.Uint16, reflect.Uint32, reflect.Uint64, reflect.Uintptr:
-		return float64(v.Uint())
-	default:
-		return float64(v.Int())
 	}
 }
 
